@@ -50,8 +50,7 @@ theorem andx_consumed :
     changes this list. -/
 theorem known_roundtrip_findings :
     commands.filterMap (fun c => (knownRtKind c).map (fun k => (k, c.name))) =
-      [(.fixedEntrySize, "FindResponse"), (.fixedEntrySize, "FindUniqueResponse"),
-       (.fieldNotMarshalled, "NegotiateResponse")] := by decide +kernel
+      [(.fixedEntrySize, "FindResponse"), (.fixedEntrySize, "FindUniqueResponse")] := by decide +kernel
 
 /-- **every buffer is sized by the field documented to size it**: the (command, buffer, length) and
     (command, list, count) relations the regenerated unmarshal programs rely on are exactly the pinned
